@@ -285,6 +285,7 @@ struct EchoServer : public WebSocketServer
 			WebSocketMsg m = ws.receive();
 			if (m.length() <= 0) continue;
 			ByteArray b = m;
+			Lock l(mutex());   // two application threads (this one and a broadcaster) write to the same WebSocket: the application serialises them
 			if (b[0] == 'T') ws.send(String((const char*)b.data(), b.length()));    // text stays text
 			else ws.send(b);
 		}
@@ -299,21 +300,28 @@ static void mode_loop(vf::Ctx& c)
 	srv.start(true);
 	int nclients = c.rng.range(1, 4);
 	long maxbig = c.opt->param("maxbig", 200000);
-	std::atomic<int> bad(0);
+	std::atomic<int> bad(0), sessions(0), nbcast(0);
 	std::string why;
 	std::mutex mu;
 	std::vector<std::thread> th;
 	uint64_t seed = c.rng.next();
-	c.desc(vf::fmt("library client <-> library server on 127.0.0.1:%d, %d clients, seed %llu", port, nclients, (unsigned long long)seed));
+	bool broadcast = c.rng.chance(0.4);
+	c.desc(vf::fmt("library client <-> library server on 127.0.0.1:%d, %d clients%s, seed %llu", port, nclients, broadcast ? ", a broadcaster thread sending to all clients under the server's mutex" : "", (unsigned long long)seed));
 	for (int k = 0; k < nclients; k++)
 		th.emplace_back([&, k]() {
 			vf::Rng r(vf::mix(seed, k));
 			WebSocket ws;
-			if (!ws.connect("127.0.0.1", port)) { bad++; std::lock_guard<std::mutex> l(mu); why = "connect failed"; return; }
+			// one or two sessions on the same WebSocket object (close(), then connect() again)
+			int nsess = r.chance(0.4) ? 2 : 1;
+			for (int sess = 0; sess < nsess; sess++) {
+			if (!ws.connect("127.0.0.1", port)) { bad++; std::lock_guard<std::mutex> l(mu); why = vf::fmt("client %d: connect failed (session %d on this object)", k, sess); return; }
+			sessions++;
 			int nm = r.range(1, 8);
 			for (int m = 0; m < nm; m++) {
 				bool text = r.chance(0.5);
-				std::string p = randPayload(r, pickLen(r, c.idx + m + k, maxbig), text);
+				size_t plen = pickLen(r, c.idx + m + k, maxbig);
+				if (sess == 1 && m == 0) plen = r.chance(0.5) ? (size_t)r.range(126, 400) : (size_t)r.range(65536, 70000);   // both extended length forms in a second session
+				std::string p = randPayload(r, plen, text);
 				p[0] = text ? 'T' : 'B';
 				if (text) ws.send(String(p.c_str(), (int)p.size())); else ws.send(ByteArray((const byte*)p.data(), (int)p.size()));
 				std::string got;
@@ -322,16 +330,33 @@ static void mode_loop(vf::Ctx& c)
 					if (ws.closed()) break;
 					WebSocketMsg e = ws.receive();
 					if (e.length() < 0) { bad++; std::lock_guard<std::mutex> l(mu); why = "negative length"; return; }
-					if (e.length() > 0) got = std::string(*e, e.length());
+					if (e.length() > 0) { got = std::string(*e, e.length()); if (got[0] == '!') { nbcast++; got.clear(); tries--; } }   // broadcasts are extra messages, not echoes
 				}
-				if (got != p) { bad++; std::lock_guard<std::mutex> l(mu); why = vf::fmt("client %d message %d: sent %d bytes, echo has %d bytes", k, m, (int)p.size(), (int)got.size()); return; }
+				if (got != p) { bad++; std::lock_guard<std::mutex> l(mu); why = vf::fmt("client %d session %d message %d: sent %d bytes, echo has %d bytes", k, sess, m, (int)p.size(), (int)got.size()); return; }
 			}
 			ws.close();
+			}
 		});
+	// the documented broadcast pattern: another application thread sends to every connected client under the server's mutex
+	std::atomic<int> stopBcast(0);
+	std::thread bc;
+	if (broadcast) bc = std::thread([&]() {
+		while (!stopBcast) {
+			{
+				Lock l(srv.mutex());
+				foreach (WebSocket* w, srv.clients()) w->send(String("!broadcast"));
+			}
+			struct timespec ts = {0, 200000}; nanosleep(&ts, 0);
+		}
+	});
 	for (auto& t : th) t.join();
+	stopBcast = 1;
+	if (bc.joinable()) bc.join();
 	srv.stop(true);
 	if (bad) c.fail("loop.echo-differs", why);
-	if (srv.served != nclients) c.fail("loop.connections-served", vf::fmt("%d clients, %d served", nclients, (int)srv.served));
+	if (srv.served != sessions) c.fail("loop.connections-served", vf::fmt("%d sessions, %d served", (int)sessions, (int)srv.served));
+	c.count("sessions", sessions);
+	c.count("broadcasts_received", nbcast);
 	c.distinct(seed);
 	if (c.want_sample()) c.sample(c.curdesc());
 }
